@@ -7,9 +7,11 @@
      connectionState.read/write      NEWKEYS switches keys; in strict mode resets seqNum to 0;
                                      a NEWKEYS read when no key change is pending is an error
      handshakeTransport.readLoop     the first packet must be KEXINIT
-     enterKeyExchange                strict mode iff the peer's KEXINIT carries the marker (and this is
-                                     the first exchange); setStrictMode fails unless exactly one
-                                     packet has been read so far
+     enterKeyExchange                strict mode iff the PEER's KEXINIT carries the marker (and this is
+                                     the first exchange): a client looks for kex-strict-s in the server's
+                                     KEXINIT, a server for kex-strict-c in the client's; a side's own marker
+                                     plays no part in its own decision.  setStrictMode fails unless exactly
+                                     one packet has been read so far
      kex Client/Server               expect exactly ECDH_INIT / ECDH_REPLY, then NEWKEYS
      setInitialKEXDone               after NEWKEYS has been received
 
@@ -22,12 +24,23 @@
    own packets (its send sequence number advances): that is the legitimate use RFC 4253 allows
    and that must stay transparent without strict mode.
 
+   Each side is either `real` (golang.org/x/crypto/ssh: the rule above) or `legacy` (a pre-Terrapin
+   implementation: it never offers the marker, never enters strict mode whatever the peer offers, keeps
+   counting its sequence numbers through NEWKEYS and may send IGNORE/DEBUG anywhere).  Strict mode is in
+   force only when negotiated, i.e. when both sides offered; with a one-sided offer the real side has to
+   behave as a non-strict peer (S5, S6).  ServerStrictRule is "peer" for the code as written; "own" documents
+   a server that looks at its own KEXINIT's marker as well (used only to show that S5/S6 can fail).
+
    After NEWKEYS in a direction packets are encrypted and authenticated with the sequence number
    as implicit input: an encrypted packet is accepted iff the receiver's read seqNum equals the
    seqNum the sender used (that is the property of the MAC/AEAD, taken as an axiom here). *)
 EXTENDS Integers, Sequences, FiniteSets, TLC
 
-CONSTANTS Scenarios   \* set of records [offer: [Sides -> BOOLEAN], plan: [Sides -> Seq(item)], noise: [Sides -> Seq(kind-or-none per own packet slot)]]
+CONSTANTS Scenarios,  \* set of records [kind: [Sides -> {"real", "legacy"}], offer: [Sides -> BOOLEAN], plan: [Sides -> Seq(item)],
+                      \*                 noise: [Sides -> Seq(number of own IGNORE/DEBUG packets per own packet slot)]]
+          ServerStrictRule   \* "peer": a real server is strict iff the client offered (the code); "own": ... or it offered itself
+
+ASSUME ServerStrictRule \in {"peer", "own"}
 
 Sides == {"c", "s"}
 Other(x) == IF x = "c" THEN "s" ELSE "c"
@@ -66,6 +79,12 @@ Init == /\ sc \in Scenarios
         /\ strict = [x \in Sides |-> FALSE] /\ kexdone = [x \in Sides |-> FALSE]
         /\ encSeq = [x \in Sides |-> <<>>] /\ noiseN = [x \in Sides |-> 0]
         /\ gotPing = [x \in Sides |-> FALSE]
+
+\* enterKeyExchange's decision of side x on receipt of the peer's KEXINIT
+WantStrict(x) ==
+  CASE sc.kind[x] = "legacy" -> FALSE
+    [] x = "c" -> sc.offer["s"]
+    [] OTHER   -> IF ServerStrictRule = "peer" THEN sc.offer["c"] ELSE (sc.offer["s"] \/ sc.offer["c"])
 
 NoiseBefore(x, slot) == sc.noise[x][slot + 1]     \* own IGNORE/DEBUG packets x emits before its script packet `slot`
 
@@ -110,7 +129,7 @@ Receive(x, k) ==
         ELSE CASE st[x] = "wInit" ->
                  \* readLoop: the first packet must be KEXINIT; enterKeyExchange: setStrictMode needs seqNum = 1
                  IF k # "KEXINIT" THEN Fail(x) /\ UNCHANGED <<strict, kexdone>>
-                 ELSE LET wantStrict == sc.offer[x] /\ sc.offer[Other(x)] IN
+                 ELSE LET wantStrict == WantStrict(x) IN
                       IF wantStrict /\ rseq[x] # 0
                       THEN Fail(x) /\ UNCHANGED <<strict, kexdone>>
                       ELSE /\ strict' = [strict EXCEPT ![x] = wantStrict]
@@ -184,6 +203,26 @@ S3 == (~BothStrict /\ ~Attacked) => \A x \in Sides : st[x] # "failed"
 S3b == (BothStrict /\ ~Attacked /\ ~NoisyBeforeNK) => \A x \in Sides : st[x] # "failed"
 
 Terminal == ~ENABLED Next
+
+\* ---- one-sided offers: strict mode is in force only when negotiated
+OneSided == \E x \in Sides : sc.kind[x] = "legacy"
+WellFormed == \A x \in Sides : sc.kind[x] = "legacy" => ~sc.offer[x]       \* a legacy side never offers
+Written(x) == sentN[x]                                                      \* packets x has written so far, its own noise included
+              + (IF sentN[x] >= 1 THEN sc.noise[x][1] ELSE 0) + (IF sentN[x] >= 2 THEN sc.noise[x][2] ELSE 0)
+              + (IF sentN[x] >= 3 THEN sc.noise[x][3] ELSE 0) + (IF sentN[x] >= 4 THEN sc.noise[x][4] ELSE 0)
+
+\* S5: a real side is in strict mode only if the peer offered it (and a legacy side never is)
+S5 == \A x \in Sides : strict[x] => (sc.kind[x] = "real" /\ sc.offer[Other(x)])
+
+\* S6: against a legacy peer the honest run -- with or without IGNORE/DEBUG sent by that peer, before or after
+\* NEWKEYS -- cannot fail and does end in a working connection, and no sequence number is reset at NEWKEYS: every
+\* side's write counter equals the number of packets it has written, and an established side has read at least
+\* the three cleartext packets of its peer
+S6 == (OneSided /\ WellFormed /\ ~Attacked) =>
+        /\ \A x \in Sides : st[x] # "failed"
+        /\ \A x \in Sides : wseq[x] = Written(x)
+        /\ \A x \in Sides : st[x] = "estab" => rseq[x] >= 3
+        /\ Terminal => Success
 \* the honest executions do reach success (non-vacuity of S3/S3b)
 HonestSucceeds == (Terminal /\ ~Attacked /\ (~BothStrict \/ ~NoisyBeforeNK)) => Success
 =============================================================================
